@@ -287,6 +287,12 @@ fn oracle(c: &FormsCase) -> Verdict {
                     if ts.corr % 2 == 0 && env.rk_seeded.contains_seed() && env.gk_seeded.contains_seed() { bad.seeded_keys = true; what = Some("seed-compressed keys".into()); } else { bad.foreign_keys = true; what = Some("keys with a foreign parms_id".into()); }
                 } else if up && (which == 3 || !ua) {
                     if let Some((p, wh)) = corrupt_pt(w, &o.plain, ts.corr % 6, ts.cpos) { bad.plain = p; what = Some(format!("plaintext: {wh}")); }
+                } else if ua && ub && ts.corr % 5 == 4 && matches!(ts.ep, Ep::Add | Ep::Sub | Ep::Multiply) {
+                    // a perfectly valid object in the representation this operation does not accept next to the other operand:
+                    // the operation just succeeded on (a, b), so flipping the representation of exactly one of them must be refused
+                    let flip = |x: &Ciphertext| catch(|| if x.is_ntt_form() { ev.transform_from_ntt_new(x) } else { ev.transform_to_ntt_new(x) }).ok();
+                    if which % 2 == 0 { if let Some(x2) = flip(&o.b) { bad.b = x2; what = Some("operand b: valid ciphertext in the other representation".into()); } }
+                    else if let Some(x2) = flip(&o.a) { bad.a = x2; what = Some("operand a: valid ciphertext in the other representation".into()); }
                 } else if ua {
                     let tgt_op = if which == 1 && ub { 1 } else if which == 2 && uc { 2 } else { 0 };
                     let src = match tgt_op { 1 => &o.b, 2 => &o.c, _ => &o.a };
